@@ -23,6 +23,14 @@ def run(rep, tier, seed, replay=None):
     esc = bool([c for c in changed if c.startswith('gen_cache:') or 'compute_cached_layout' in c or 'compute_child_layout' in c
                 or 'compute_hidden_layout' in c or 'mark_dirty' in c])
     engine_event_correspondence(rep, binp, seed + 15, 3000 if tier != 'quick' or esc else 300, real=True)
+    # extreme-value corpus (sizes that overflow f32 or are huge): laziness must hold for them as for any tree
+    if not replay:
+        rcx, outx = vh(binp, ['c15', 'extreme'], timeout=120)
+        if 'EXTREME' not in outx:
+            rep.add_broken('search', 'vh c15 extreme', outx[-400:])
+        for l in [l for l in outx.split('\n') if l.startswith('FAIL extreme')][:3]:
+            rep.add_violation(l[:400], {'cmd': 'vh c15 extreme'})
+        rep.cov['extreme_corpus_cases'] = 12
     n = 1500 if tier == 'quick' and not rep.broken else 15000
     start = 0
     if replay:
